@@ -892,8 +892,43 @@ func bodyDecodeGuard(c *Ctx, ep *EmittedPkg, rid string) {
 		return
 	}
 	// objects declared inside the handler literal (its parameters and locals) are per-request values
-	perRequest := func(o types.Object) bool {
-		return o != nil && o.Pos() >= lit.Pos() && o.Pos() <= lit.End()
+	// a local of the handler whose only definition is computed from registration-time values is itself one
+	defsOf := map[types.Object][]ast.Expr{}
+	ast.Inspect(lit.Body, func(nd ast.Node) bool {
+		if as, ok := nd.(*ast.AssignStmt); ok {
+			for i, l := range as.Lhs {
+				if id, ok := l.(*ast.Ident); ok {
+					if o := ep.Info.ObjectOf(id); o != nil {
+						if len(as.Lhs) == len(as.Rhs) {
+							defsOf[o] = append(defsOf[o], as.Rhs[i])
+						} else {
+							defsOf[o] = append(defsOf[o], as.Rhs...)
+						}
+					}
+				}
+			}
+		}
+		return true
+	})
+	var perRequest func(o types.Object, depth int) bool
+	perRequest = func(o types.Object, depth int) bool {
+		if o == nil || !(o.Pos() >= lit.Pos() && o.Pos() <= lit.End()) {
+			return false
+		}
+		ds := defsOf[o]
+		if len(ds) != 1 || depth > 4 {
+			return true // a parameter of the handler (r, w), or a local assigned more than once
+		}
+		dep := false
+		ast.Inspect(ds[0], func(m ast.Node) bool {
+			if id, ok := m.(*ast.Ident); ok {
+				if v, isVar := ep.Info.Uses[id].(*types.Var); isVar && perRequest(v, depth+1) {
+					dep = true
+				}
+			}
+			return !dep
+		})
+		return dep
 	}
 	var stack []ast.Node
 	n := 0
@@ -934,7 +969,7 @@ func bodyDecodeGuard(c *Ctx, ep *EmittedPkg, rid string) {
 			for _, cnd := range conds {
 				ast.Inspect(cnd, func(m ast.Node) bool {
 					if id, ok := m.(*ast.Ident); ok {
-						if o := ep.Info.Uses[id]; perRequest(o) {
+						if o := ep.Info.Uses[id]; perRequest(o, 0) {
 							if _, isVar := o.(*types.Var); isVar {
 								bad = append(bad, ep.Text(cnd))
 								if bpos == token.NoPos {
